@@ -170,12 +170,13 @@ def jsonable(x):
 # parallel sharding
 # --------------------------------------------------------------------------
 _WORKER_FN = None
+_SHARDS = None
 
 
-def _worker(args):
-    idx, shard = args
+def _worker(idx):
+    # shards and the function are inherited through fork (they may hold closures / lambdas)
     try:
-        acc = _WORKER_FN(shard)
+        acc = _WORKER_FN(_SHARDS[idx])
         return idx, acc, None
     except Exception:
         return idx, None, traceback.format_exc()
@@ -195,10 +196,11 @@ def pmap(fn, shards, nproc=None):
         for s in shards:
             total.merge(fn(s))
         return total
-    _WORKER_FN = fn
+    global _SHARDS
+    _WORKER_FN, _SHARDS = fn, shards
     ctx = mp.get_context("fork")
     with ctx.Pool(nproc) as pool:
-        results = pool.map(_worker, list(enumerate(shards)), chunksize=1)
+        results = pool.map(_worker, range(len(shards)), chunksize=1)
     for idx, acc, err in sorted(results, key=lambda r: r[0]):
         if err is not None:
             raise RuntimeError(f"harness error in shard {idx}:\n{err}")
@@ -540,15 +542,15 @@ def bfs_levels(expand, init_key, max_depth, nproc=None, max_states=None):
 
 def _pmap_raw(fn, shards, nproc=None):
     """Like pmap but returns the per-shard Acc objects (in shard order)."""
-    global _WORKER_FN
+    global _WORKER_FN, _SHARDS
     shards = list(shards)
     nproc = min(nproc or NPROC, max(1, len(shards)))
     if nproc <= 1 or os.environ.get("VERIF_SERIAL"):
         return [fn(s) for s in shards]
-    _WORKER_FN = fn
+    _WORKER_FN, _SHARDS = fn, shards
     ctx = mp.get_context("fork")
     with ctx.Pool(nproc) as pool:
-        results = pool.map(_worker, list(enumerate(shards)), chunksize=1)
+        results = pool.map(_worker, range(len(shards)), chunksize=1)
     out = []
     for idx, acc, err in sorted(results, key=lambda r: r[0]):
         if err is not None:
